@@ -287,7 +287,8 @@ class Gen(object):
     """Builds one well-formed program.  `truth_only` restricts the op set to
     the truth catalogue T (DESIGN 3.3)."""
 
-    def __init__(self, rng, family, n_in, out_shapes, size, truth_only=False):
+    def __init__(self, rng, family, n_in, out_shapes, size, truth_only=False, off_prob=0.0):
+        self.off_prob = off_prob
         self.rng = rng
         self.family = family
         self.n_in = list(n_in)
@@ -315,6 +316,12 @@ class Gen(object):
             flat = all(self.regs[o].flat for o in a if isinstance(o, int))
         poly = p and all(self.regs[o].poly for o in a if isinstance(o, int))
         ins['p'] = bool(poly)
+        if (self.off_prob and kind == 'v' and not cplx and op in ('add', 'sub', 'mul', 'div', 'pow', 'un', 'sum', 'dot')
+                and sh is not None and self.rng.random() < self.off_prob):
+            # executed with recording switched off: the result is a value the graph captures as a
+            # constant (frozen at its recording-time value), not an operation of the graph
+            ins['off'] = True
+            ins['t'] = False
         self.instrs.append(ins)
         self.regs.append(Reg(sh, mag, kind=kind, pos=pos, flat=flat, poly=poly, elems=elems, cplx=cplx))
         me = len(self.regs) - 1
@@ -1208,11 +1215,24 @@ class Gen(object):
             'truth': all(i['t'] for i in self.instrs),
             'exact': all(i['p'] for i in self.instrs) and not self.stale_views,
             'stale_views': self.stale_views,
+            'frozen': any(i.get('off') for i in self.instrs),
         }
 
 
-def gen_program(rng, family, n_in, out_shapes, size, truth_only=False):
-    return Gen(rng, family, n_in, out_shapes, size, truth_only).build()
+def gen_program(rng, family, n_in, out_shapes, size, truth_only=False, off_prob=0.0):
+    return Gen(rng, family, n_in, out_shapes, size, truth_only, off_prob).build()
+
+
+def run_program_frozen(prog, inputs, B, frozen_regs):
+    """Like run_program, but instructions that were executed with recording off take the value
+    they had at recording time (register `frozen_regs[i]`) instead of being executed."""
+    regs = list(inputs)
+    for ins in prog['instrs']:
+        if ins.get('off'):
+            regs.append(frozen_regs[len(regs)])
+        else:
+            regs.append(exec_instr(ins, regs, B))
+    return regs
 
 
 def features(prog):
